@@ -82,9 +82,11 @@ ErrClauses(tag, E) ==
   \cup {<<tag \o ":duplicate-direct-base", s>> :
           s \in {t \in DOMAIN lin : lin[t].st = "dup" /\ t \notin E /\ DevAccepts(t)}}
 
+(* reads are judged through well-typed classes (C3Ops!Clean; every plain class is Clean) *)
 ReadClauses(tag, reads) ==
-  {<<tag \o ":class-read", k>> : k \in {x \in DOMAIN reads : reads[x][4] # Expected(reads[x])}}
-  \cup {<<tag \o ":instance-read", k>> : k \in {x \in DOMAIN reads : reads[x][5] # Expected(reads[x])}}
+  LET J == {x \in DOMAIN reads : Clean(hier, reads[x][1])} IN
+  {<<tag \o ":class-read", k>> : k \in {x \in J : reads[x][4] # Expected(reads[x])}}
+  \cup {<<tag \o ":instance-read", k>> : k \in {x \in J : reads[x][5] # Expected(reads[x])}}
 
 (* per-statement observation o = [ok, mro] of a whole linearisation *)
 MroClauses(tag, obs) ==
@@ -98,15 +100,16 @@ MroClauses(tag, obs) ==
 (* histories: every marker observed for the reads of step s is the one the spec recorded;    *)
 (* a wrong marker that an EARLIER read through the same class legitimately got is named stale *)
 ReadSteps == {t \in DOMAIN hist : hist[t].op = "read"}
+JudgedSteps == {t \in ReadSteps : Clean(hier, hist[t].c)}
 WrongAt(obs, t) == {q \in DOMAIN obs[t] : obs[t][q] # hist[t].exp}
 StaleAt(obs, t) ==
   \E q \in WrongAt(obs, t) : \E u \in 1 .. (t - 1) :
      hist[u].op = "read" /\ hist[u].c = hist[t].c /\ hist[u].exp = obs[t][q] /\ obs[t][q] > 0
 HistClauses(tag, obs) ==
   {<<tag \o ":stale-read-after-assign", s>> :
-     s \in {t \in ReadSteps : WrongAt(obs, t) # {} /\ StaleAt(obs, t)}}
+     s \in {t \in JudgedSteps : WrongAt(obs, t) # {} /\ StaleAt(obs, t)}}
   \cup {<<tag \o ":history-read", s>> :
-     s \in {t \in ReadSteps : WrongAt(obs, t) # {} /\ ~StaleAt(obs, t)}}
+     s \in {t \in JudgedSteps : WrongAt(obs, t) # {} /\ ~StaleAt(obs, t)}}
 ShapeOk(obs) ==
   /\ Len(obs) = Len(hist)
   /\ \A t \in DOMAIN hist :
@@ -137,11 +140,19 @@ Fails ==
          ErrClauses("src", ToSet(Case.src.mroerr))
          \cup (IF ShapeOk(Case.src.obs) THEN HistClauses("src", Case.src.obs) ELSE {})
 
+(* how many of the recorded reads were judged (read through a Clean class) *)
+Cov ==
+  IF Case.kind = "hist"
+    THEN [kind |-> "hist", judged |-> Cardinality(JudgedSteps), total |-> Cardinality(ReadSteps)]
+    ELSE [kind |-> Case.kind, total |-> Len(Case.src.reads),
+          judged |-> Cardinality({x \in DOMAIN Case.src.reads : Clean(hier, Case.src.reads[x][1])})]
+
 Ok ==
   Judging =>
     /\ LET o == OracleFails IN o = {} \/ PrintT(<<"ORACLE", ToJson([i |-> i, fails |-> o])>>)
     /\ LET f == Fails IN f = {} \/ PrintT(<<"BAD", ToJson([i |-> i, fails |-> f, hist |-> hist])>>)
     /\ lin = Lin(hier) \/ PrintT(<<"ORACLE", ToJson([i |-> i, fails |-> {<<"machine", 0>>}])>>)
+    /\ Case.kind = "hier" \/ PrintT(<<"COV", ToJson(Cov)>>)
 
 Done == TLCGet(1)
 =============================================================================
